@@ -1,6 +1,7 @@
 import Bxh.Props.C04
 import Bxh.Proofs.ExecGlob
 import Bxh.Proofs.ExecBlock
+import Bxh.Proofs.RouterLemmas
 /-!
 # C05 — one-to-many cross-chain transactions are all-or-nothing
 
@@ -447,5 +448,13 @@ example :
     globState (Bxh.Props.C02.runIbtps env l [m s21 .interchain, m s29 .interchain]) gid = some .beginFailure ∧
     (globState (Bxh.Props.C02.runIbtps env l [m s21 .interchain, m s29 .interchain, { m s21 .receiptSuccess with group := none }]) gid).map Status.dead = some true := by
   decide
+
+/-! ### the rollback notifications reach the chains' piers -/
+
+/-- every chain's pier is handed exactly the one-to-many notifications the block lists for it -/
+theorem C05_router_hands_each_pier_its_notifications (cfg : Cfg) (n : Node) (txs : List (Tx × Bool)) (d : String)
+    (hm : Router.Keyed (execBlock cfg n txs).2.multiCounter) :
+    (Router.deliver (execBlock cfg n txs).2 d).multi = KV.getD (execBlock cfg n txs).2.multiCounter d [] := by
+  rw [Router.deliver_spec _ (Router.applyTxs_counter_keyed ..) (Router.getTimeoutMap_keyed ..) hm]
 
 end Bxh.Props.C05
